@@ -40,6 +40,13 @@ PATTERNS = ('zeros', 'ones', 'counter', 'repeat-3')
 K = 1400
 
 
+def _new_server():
+    """A real server object built by its public constructor (so that whatever state generate_id relies on exists)."""
+    import engineio
+    from vf.simenv.kernel import NullLogger
+    return engineio.Server(async_mode='threading', monitor_clients=False, logger=NullLogger())
+
+
 class _PatternSecrets:
     """Random source for the bounded-history condition: constant, repeating or counting output."""
     def __init__(self, kind):
@@ -59,7 +66,7 @@ class _PatternSecrets:
 def _history(si, pi):
     """K consecutive issues of ONE server object starting at a chosen counter value, run on the real method: every id is
     20 URL-safe characters and no two are equal, whatever the (constant / repeating) random source returns."""
-    obj = object.__new__(base_server.BaseServer)
+    obj = _new_server()
     obj.sequence_number = STARTS[si]
     old = base_server.secrets
     base_server.secrets = _PatternSecrets(PATTERNS[pi])
@@ -67,7 +74,7 @@ def _history(si, pi):
         seen = {}
         for i in range(K):
             try:
-                sid = base_server.BaseServer.generate_id(obj)
+                sid = obj.generate_id()
             except Exception as e:  # noqa
                 return fail(PROP, 'ID-RAISES', 'issue #%d from counter %d: %s: %s' % (i, STARTS[si], type(e).__name__, e))
             if not isinstance(sid, str) or len(sid) != 20 or not URLSAFE.match(sid):
@@ -183,12 +190,12 @@ class _Secrets:
 
 def real_generate(rnd_values, seq):
     """Run the REAL method with the random source pinned to rnd_values and the counter at seq."""
-    obj = object.__new__(base_server.BaseServer)
+    obj = _new_server()
     obj.sequence_number = seq
     old = base_server.secrets
     base_server.secrets = _Secrets(rnd_values)
     try:
-        sid = base_server.BaseServer.generate_id(obj)
+        sid = obj.generate_id()
     finally:
         base_server.secrets = old
     return sid, obj.sequence_number
